@@ -626,7 +626,7 @@ func CheckMerge(prop, tier string) int {
 			cases = sel
 		}
 		if tier == "thorough" {
-			loads = 10
+			loads = 6
 		}
 	}
 	var mu sync.Mutex
